@@ -69,6 +69,7 @@ SEEDS = {
     "C16c-plates-mode-sum-capped": ("C16", "parallel plates with (f/f0)*(gap/R)^1.5 beyond a few thousand (gaps of metres, or very high harmonics): the mode sum is cut at 1000 terms, the impedance falls below free space instead of tending to it", []),
     "C17c-padded-datasets-sized-by-radiation-field": ("C17", "two or more buckets spaced closely relative to the padding (n_buckets x spacing < padding/2 grid widths, e.g. -H 28000), an impedance and an HDF5 output: the padded datasets are sized from the radiation field, HDF5 reads past the wake field's buffers", ["C10"]),
     "C18c-formfactor-upper-half-mirrored": ("C18", "wakePotential() and later updateCSR() on the SAME field object with an impedance that is non-zero above half the length (a user table given with its negative-frequency half): the upper half of the shared form-factor buffer holds the mirrored spectrum of the earlier profile", ["C07"]),
+    "C20c-unsigned-trailing-garbage-accepted": ("C20", "a value that starts with digits and continues with garbage (64abc, 32.5, 1e3, 0x40) given to an unsigned option: read up to the first non-digit, no message, the run proceeds", []),
     "C10-": ("C10", "", []),
     "C17-": ("C17", "", []),
 }
